@@ -837,3 +837,30 @@ Proof.
   exists t1. split; [exact H1|]. split; [exact H2|]. eapply Qle_trans; [exact H3|].
   rewrite inv_alpha_is_5_4. apply Qle_refl.
 Qed.
+
+(** executable form of [under_limit], for examples *)
+Fixpoint under_limit_b (alpha mx : Q) (b : bucket) (ops : list bop) : bool :=
+  match ops with
+  | [] => true
+  | op :: r =>
+      match op with
+      | Consume amt _ now =>
+          (0 <=? amt)%Z &&
+          match last_time (trk b) with
+          | None => true
+          | Some lt => negb (Qle_bool now lt) && Qle_bool (inject_Z amt) (mx * (now - lt))
+          end
+      | Cancel _ => true
+      end && under_limit_b alpha mx (fst (bstep alpha mx b op)) r
+  end.
+
+Lemma under_limit_b_sound alpha mx ops : forall b,
+  under_limit_b alpha mx b ops = true -> under_limit alpha mx b ops.
+Proof.
+  induction ops as [|op ops IH]; intros b H; cbn [under_limit_b under_limit] in *; [exact I|].
+  apply andb_prop in H as [H1 H2]. split; [|now apply IH].
+  destruct op as [amt tok now|tok]; [|exact I].
+  apply andb_prop in H1 as [Ha Hl]. split; [now apply Z.leb_le|].
+  intros lt El. rewrite El in Hl. apply andb_prop in Hl as [Hl1 Hl2].
+  apply negb_true_iff in Hl1. split; [now apply Qle_bool_false|now apply Qle_bool_true].
+Qed.
